@@ -1,7 +1,7 @@
 (* C11 -- property theorems only.  Proofs live in C11/Proofs*.v. *)
 From Coq Require Import NArith List Bool.
 From DV Require Import C02.ProofsName.
-From DV Require Import Base.Outcome Base.Bytes Base.Names Base.PName C11.Gen C11.Model C11.Proofs C11.Proofs2 C11.Proofs3 C11.Proofs4 C11.Proofs5 C11.Proofs6 C11.Proofs7 C11.Proofs8 C11.Proofs9.
+From DV Require Import Base.Outcome Base.Bytes Base.Names Base.PName C11.Gen C11.Model C11.Proofs C11.Proofs2 C11.Proofs3 C11.Proofs4 C11.Proofs5 C11.Proofs6 C11.Proofs7 C11.Proofs8 C11.Proofs9 C11.ProofsA.
 Import ListNotations.
 Local Open Scope N_scope.
 
@@ -332,3 +332,82 @@ Theorem C11_forwarded_id_irrelevant : forall m x t, 12 <= mlen m ->
   (forall out, remove_tsig m t = Ok out -> hdr_id out = mt_oid t \/ 65536 <= mt_oid t).
 Proof. exact forwarded_id_irrelevant. Qed.
 Print Assumptions C11_forwarded_id_irrelevant.
+
+(* widening round (ProofsA.v): rejections that need no MAC *)
+Theorem C11_server_unknown_key_is_badkey : forall (mac : alg -> bytes -> bytes -> bytes) k w now t,
+  from_message w = Ok t ->
+  (alg_from_name (mt_algname t) = None \/
+   exists a, alg_from_name (mt_algname t) = Some a /\ store_get k (mt_owner t) a = false) ->
+  server_request mac k w now = Err (SE_UNSIGNED + RC_BADKEY).
+Proof. exact server_unknown_key_badkey. Qed.
+Print Assumptions C11_server_unknown_key_is_badkey.
+
+Theorem C11_server_misplaced_tsig_is_formerr : forall (mac : alg -> bytes -> bytes -> bytes) k w now e,
+  from_message w = Err e ->
+  server_request mac k w now = if e =? TE_MISSING then Ok SrvNone else Err (SE_UNSIGNED + RC_FORMERR).
+Proof. exact server_from_message_error. Qed.
+Print Assumptions C11_server_misplaced_tsig_is_formerr.
+
+Theorem C11_client_misplaced_tsig_is_formerr : forall (mac : alg -> bytes -> bytes -> bytes) k c m now e,
+  from_message m = Err e ->
+  client_answer mac k c m now = Err (if e =? TE_MISSING then VE_SERVERUNSIGNED else VE_FORMERR).
+Proof. exact client_from_message_error. Qed.
+Print Assumptions C11_client_misplaced_tsig_is_formerr.
+
+Theorem C11_client_wrong_key_is_badkey : forall (mac : alg -> bytes -> bytes -> bytes) k c m now t,
+  from_message m = Ok t -> (hdr_rcode m =? RC_NOTAUTH) = false ->
+  (name_eqb (mt_owner t) (k_name k) = false \/ name_eqb (mt_algname t) [alg_label (k_alg k)] = false) ->
+  client_answer mac k c m now = Err VE_BADKEY /\
+  (forall s, cseq_answer mac k s m now = (s, Err VE_BADKEY)).
+Proof. exact client_wrong_key_badkey. Qed.
+Print Assumptions C11_client_wrong_key_is_badkey.
+
+Theorem C11_client_reports_server_verdict : forall (mac : alg -> bytes -> bytes -> bytes) k c m now t,
+  from_message m = Ok t -> (hdr_rcode m =? RC_NOTAUTH) = true ->
+  (mt_error t = RC_BADKEY -> client_answer mac k c m now = Err VE_SERVERBADKEY) /\
+  (mt_error t = RC_BADSIG -> client_answer mac k c m now = Err VE_SERVERBADSIG).
+Proof. exact client_server_verdict. Qed.
+Print Assumptions C11_client_reports_server_verdict.
+
+(* an honest answer verified outside the fudge window: BadTime (the MAC is fine) *)
+Theorem C11_answer_outside_window_badtime : forall mac,
+  (forall a k d, len (mac a k d) = native_len a) ->
+  forall ks kr c msg nq an ns ar t fudge now w,
+  same_key ks kr -> k_min kr <= k_sign ks -> within_len_bounds (k_alg ks) (k_sign ks) = true ->
+  MsgAt msg nq an ns ar -> name_ok (k_name ks) -> t < T48_LIMIT -> fudge < 65536 ->
+  (hdr_rcode msg =? RC_NOTAUTH) = false ->
+  server_answer mac ks c msg t fudge = Ok w ->
+  is_valid_at t fudge now = false ->
+  client_answer mac kr c w now = Err VE_BADTIME.
+Proof. exact answer_outside_window_full. Qed.
+Print Assumptions C11_answer_outside_window_badtime.
+
+(* multi-message responses: one ServerSequence step verifies in ClientSequence
+   (first message: full variables, later ones: timers), both ends then hold the
+   same context, the octets are restored, the unsigned counter is reset *)
+Theorem C11_sign_verify_sequence_step : forall mac,
+  (forall a k d, len (mac a k d) = native_len a) ->
+  forall ks kr c first u msg nq an ns ar t fudge now c' w,
+  same_key ks kr -> k_min kr <= k_sign ks -> within_len_bounds (k_alg ks) (k_sign ks) = true ->
+  MsgAt msg nq an ns ar -> name_ok (k_name ks) -> t < T48_LIMIT -> fudge < 65536 ->
+  (hdr_rcode msg =? RC_NOTAUTH) = false ->
+  server_seq_answer mac ks c first msg t fudge = Ok (c', w) ->
+  is_valid_at t fudge now = true ->
+  exists rr, w = set_arcount msg (arcount msg + 1) ++ rr /\
+    cseq_answer mac kr (CSeq c first u) w now = (CSeq c' false (if first then u else 0), Ok (msg ++ rr)).
+Proof. exact sequence_step_full. Qed.
+Print Assumptions C11_sign_verify_sequence_step.
+
+(* ... and a whole stream of any length, by induction: every message is accepted
+   with its pre-signing octets, the contexts stay equal, done() succeeds *)
+Theorem C11_sign_verify_sequence_stream : forall mac,
+  (forall a k d, len (mac a k d) = native_len a) ->
+  forall ks kr,
+  same_key ks kr -> k_min kr <= k_sign ks -> within_len_bounds (k_alg ks) (k_sign ks) = true ->
+  name_ok (k_name ks) ->
+  forall c f its ws c2, signed_stream mac ks c f its ws c2 -> Forall item_ok its ->
+  exists f', fst (client_feed mac kr (CSeq c f 0) ws its) = CSeq c2 f' 0 /\ (its <> [] -> f' = false) /\
+    Forall2 (fun it o => exists rr, o = Ok (i_msg it ++ rr)) its (snd (client_feed mac kr (CSeq c f 0) ws its)) /\
+    cseq_done (fst (client_feed mac kr (CSeq c f 0) ws its)) = Ok tt.
+Proof. exact sequence_stream. Qed.
+Print Assumptions C11_sign_verify_sequence_stream.
